@@ -588,6 +588,10 @@ class BufferAsyncCalls(Generic[T]):
         )
         #: Current task that is waiting for a new element from the queue
         self._getting: Optional['aio.Task[AsyncIterable[T]]'] = None
+        #: True while :meth:`wait` has cancelled :attr:`_getting` to
+        #: request an immediate run of the function. Distinguishes that
+        #: from the cancellation of the processing task itself.
+        self._flush_requested = False
 
     def __call__(self, _arg: T) -> None:
         """
@@ -682,6 +686,7 @@ class BufferAsyncCalls(Generic[T]):
             # _process_queue gets at least one cycle to pull remaining
             # elements off the queue
             await aio.sleep(0)
+            self._flush_requested = True
             self._getting.cancel()
         # Wait for the function to finish processing
         await self.event.wait()
@@ -712,7 +717,7 @@ class BufferAsyncCalls(Generic[T]):
             try:
                 async for i in iterable:
                     inputs.add(i)
-            except BaseException:  # noqa
+            except Exception:  # noqa
                 logger.exception("Failed to get args from: %r", iterable)
 
         # Get first element, block infinitely until one appears
@@ -738,7 +743,12 @@ class BufferAsyncCalls(Generic[T]):
             # out or is cancelled, its time to run the function.
             try:
                 await _load_inputs(await self._getting)
-            except (aio.TimeoutError, aio.CancelledError):
+            except aio.TimeoutError:
+                await self._run_func(inputs)
+            except aio.CancelledError:
+                if not self._flush_requested:
+                    raise  # This task itself is being cancelled
+                self._flush_requested = False
                 await self._run_func(inputs)
             else:
                 self.q.task_done()
@@ -755,7 +765,7 @@ class BufferAsyncCalls(Generic[T]):
         try:
             if inputs:  # Could be empty if all empty iterators
                 await self.func(inputs)
-        except BaseException as e:  # noqa
+        except Exception as e:  # noqa
             logging.exception("Failed to run %s, retrying", self.func)
         else:
             self.event.set()
